@@ -47,6 +47,26 @@ let () =
          bump (Printf.sprintf "ops%d" (List.length (List.filter (fun s -> String.length s < 2 || String.sub s 0 2 <> "w_") kinds)));
          List.iter bump kinds
        done
+   | "assign" ->
+       let c = { Views.maxrank = geti "--maxrank" 3; maxops = geti "--maxops" 4; rebased = false; maxd = 4 } in
+       for k = 1 to count do
+         let id = Printf.sprintf "%s%d" (get "--prefix" "a" args) k in
+         let rec go tries =
+           let cs, kinds = Assign.gen_case c in
+           let o = Buffer.create 1024 in
+           if Assign.run_case id cs o || tries = 0 then begin
+             Buffer.add_string prog (Assign.case_text id cs); Buffer.add_buffer obs o; Buffer.add_string obs ("E " ^ id ^ "\n");
+             List.iter bump kinds end
+           else go (tries - 1) in
+         go 5
+       done
+   | "assign-run" ->
+       let ic = open_in (get "--prog" "prog.txt" args) in
+       let n = in_channel_length ic in
+       let text = really_input_string ic n in
+       close_in ic;
+       List.iter (fun (id, cs) -> ignore (Assign.run_case id cs obs); Buffer.add_string obs ("E " ^ id ^ "\n")) (Assign.parse_cases text);
+       Buffer.add_string prog text
    | "iters-run" ->
        let ic = open_in (get "--prog" "prog.txt" args) in
        let n = in_channel_length ic in
@@ -77,7 +97,7 @@ let () =
        Views.run_text text obs;
        Buffer.add_string prog text
    | _ -> usage ());
-  if cmd <> "views-run" && cmd <> "iters-run" then write (get "--prog" "prog.txt" args) prog;
+  if cmd <> "views-run" && cmd <> "iters-run" && cmd <> "assign-run" then write (get "--prog" "prog.txt" args) prog;
   write (get "--obs" "obs.txt" args) obs;
   (* distribution of what was generated, for the evidence file *)
   let items = Hashtbl.fold (fun k v acc -> (k, v) :: acc) hist [] in
